@@ -72,7 +72,7 @@ def run(ctx):
     ctx.rule("C17.R3", "every attribute assigned on a header object is a declared field of that header type (others are silently written as 0)", floor=30)
     ctx.rule("C17.R4", "required header fields are assigned before the header is registered", floor=25)
     ctx.rule("C17.R5", "spec formulas: st_info = bind << 4 | type, r_info = sym << 32 (64-bit) / << 8 (32-bit) + type, e_ident class/data/version bytes", floor=6)
-    ctx.rule("C17.R6", "symbol table: null entry first, locals before globals, sh_info = number of locals + 1, size = (n + 1) entries, ids mapped for relocations", floor=6)
+    ctx.rule("C17.R6", "symbol table: null entry first, locals before globals, sh_info = number of locals + 1, size = (n + 1) entries, ids mapped for relocations", floor=7)
     ctx.rule("C17.R7", "file offsets: taken by tell() after alignment, before the content is written, once per table / segment (inside the loop that creates the header)", floor=8)
     project = ctx.project
     # ---- R1 ---------------------------------------------------------------
@@ -204,6 +204,10 @@ def run(ctx):
     split = [n for n in walk_no_nested(st) if isinstance(n, ast.If) and "symbol.binding" in norm(n.test) and any("global_symbols.append" in norm(b) for b in n.body)]
     ok = bool(split) and "GLOBAL" in norm(split[0].test) and any("local_symbols.append" in norm(b) for b in split[0].orelse)
     ctx.ob("C17.R6", site, "symbols are split by binding: GLOBAL into the global list, the rest into the local list", ok, construct="split")
+    bind = [n for n in ast.walk(st) if isinstance(n, ast.If) and any(isinstance(b, ast.Assign) and norm(b.targets[0]) == "st_bind" and "GLOBAL" in norm(b.value) for b in n.body)]
+    ok = bool(split) and len(bind) == 1 and norm(bind[0].test) == norm(split[0].test) and any(isinstance(b, ast.Assign) and norm(b.targets[0]) == "st_bind" and "LOCAL" in norm(b.value) for b in bind[0].orelse)
+    ctx.ob("C17.R6", site, "a symbol is written as STB_GLOBAL under exactly the condition that put it into the global part of the table (everything below sh_info is STB_LOCAL)", ok, construct="binding-matches-split",
+           node=bind[0] if bind else st, detail="split on `%s`, bound on `%s`" % (norm(split[0].test) if split else "?", norm(bind[0].test) if bind else "?"))
     fg = assigned_values(st, "symbol_table_index_first_global")
     shinfo = [n for n in walk_no_nested(st) if isinstance(n, ast.Assign) and norm(n.targets[0]) == "section_header.sh_info"]
     ok = bool(fg) and sym.affine(fg[0], {}) == sym.atom("len(local_symbols)") + sym.const(1) and bool(shinfo) and norm(shinfo[0].value) == "symbol_table_index_first_global"
